@@ -99,6 +99,7 @@ impl Sym {
         mk(Node::Const(x.to_bits()))
     }
     pub fn named(s: &'static str) -> Sym { mk(Node::Named(s)) }
+    pub fn is_const(&self) -> bool { const_of(self.0).is_some() }
     pub fn un(op: Op1, a: Sym) -> Sym { mk(Node::Un(op, a.0)) }
     pub fn bin(op: Op2, a: Sym, b: Sym) -> Sym { mk(Node::Bin(op, a.0, b.0)) }
     pub fn fun(id: u32, args: &[Sym]) -> Sym { mk(Node::Fun(id, args.iter().map(|s| s.0).collect())) }
